@@ -428,6 +428,22 @@ def run(ctx):
              ("py-bytes", "bytes", True, b'b5"\xe2\x82\xac\xf0\x9f"'),
              ("py-guid", "iface", True, b"g{01234567-89ab-cdef-0123-456789abcdef}"),
              ("py-map", "map[string]iface", True, 'm2{s2"k€"u€s1"x"a2{1;i12;}}'.encode())]
+    # conversions whose result keeps bytes of the stream (number text into a string, digit string into a
+    # number): followed by filler so that Remains() refills the buffer before the value is looked at
+    filler = b"s300\"" + b"f" * 300 + b"\""
+    for simple in (True, False):
+        sfx = "" if simple else "-ref"
+        extra += [("py-int-into-string" + sfx, "string", simple, b"i1234567;" + filler),
+                  ("py-long-into-string" + sfx, "string", simple, b"l98765432109876543210;" + filler),
+                  ("py-double-into-string" + sfx, "string", simple, b"d3.14159;" + filler),
+                  ("py-nums-into-strings" + sfx, "[]string", simple, b"a3{i1234567;d3.5;l98765432109876543210;}" + filler),
+                  ("py-nums-into-map" + sfx, "map[string]string", simple, b'm2{s1"a"i1234567;s1"b"d2.5;}' + filler),
+                  ("py-string-into-int" + sfx, "int", simple, b's3"128"' + filler),
+                  ("py-string-into-bigint" + sfx, "bigint", simple, b's3"128"' + filler),
+                  ("py-string-into-float" + sfx, "float64", simple, b's4"1.25"' + filler),
+                  ("py-strings-into-ints" + sfx, "[]int", simple, b'a3{s3"128"s1"7"u9}' + filler),
+                  ("py-bytes-into-string" + sfx, "string", simple, b'b5"hello"' + filler),
+                  ("py-string-into-bytes" + sfx, "bytes", simple, b's5"hello"' + filler)]
     for name, typ, simple, b in extra:
         samples.append({"name": name, "type": typ, "simple": simple, "hex": b.hex()})
     dcases, dmeta = [], {}
